@@ -284,6 +284,8 @@ where
         let mut norme = _get_refine_error(e, b, K, x);
         #[cfg(clarabel_verif)]
         crate::verif_hooks::c12::ir_event(0, crate::verif_hooks::trace::f(normb), crate::verif_hooks::trace::f(norme));
+        #[cfg(clarabel_verif)]
+        crate::verif_hooks::c12::ir_vector(0, &x.iter().map(|v| crate::verif_hooks::trace::f(*v)).collect::<Vec<f64>>());
 
         if !norme.is_finite() {
             return false;
@@ -303,6 +305,8 @@ where
             //prospective solution is x + dx.  Use dx space to
             // hold it for a check before applying to x
             dx.axpby(T::one(), x, T::one());
+            #[cfg(clarabel_verif)]
+            crate::verif_hooks::c12::ir_vector(1, &dx.iter().map(|v| crate::verif_hooks::trace::f(*v)).collect::<Vec<f64>>());
 
             norme = _get_refine_error(e, b, K, dx);
             #[cfg(clarabel_verif)]
